@@ -28,6 +28,7 @@ func genC18(r *rt.Rand, tier string, idx int) *world.Scenario {
 	if idx%3 == 2 {
 		sc.Class = "concurrent-follower-reads"
 		sc.Extra["concurrent"] = 1
+		sc.Extra["tso_yield"] = 1
 		sc.Extra["writes"] = int64(5 + r.Intn(20))
 		sc.Extra["readers"] = int64(1 + r.Intn(3))
 		sc.Extra["reads"] = int64(3 + r.Intn(8))
